@@ -68,6 +68,7 @@ class LP_Solver:
         """
 
         self.info_string = ''
+        self.failed_status = None
         self.solver = pulp.PULP_CBC_CMD(
             msg=msg, 
             timeLimit=timeLimit, 
@@ -81,12 +82,37 @@ class LP_Solver:
         self.run_optimisations(self.optimisation_options)
 
         if len(self.optimisation_options) == 0:
-            self.prob.solve(self.solver)
+            self.solve_to_optimality()
 
         self.model.info_string = self.info_string
         if write:
             self.prob.writeLP('model.lp')
+        if self.failed_status is not None:
+            return self.failed_status
         return LpStatus[self.prob.status] 
+
+
+    def solve_to_optimality(self):
+        """Solves the current problem, remembering the first failure.
+
+        A solve only counts if it ends with a proven optimum. Pulp reports a
+        solve stopped by the time limit with an incumbent solution as status
+        Optimal with a solution status other than Optimal; that is recorded as
+        Not Solved.
+
+        Return:
+          Whether the solve ended with a proven optimum.
+        """
+        self.prob.solve(self.solver)
+        if (self.prob.status == LpStatusOptimal and 
+            self.prob.sol_status == LpSolutionOptimal):
+            return True
+        if self.failed_status is None:
+            if self.prob.status == LpStatusOptimal:
+                self.failed_status = LpStatus[LpStatusNotSolved]
+            else:
+                self.failed_status = LpStatus[self.prob.status]
+        return False
 
     
     def add_constraints(
@@ -302,7 +328,7 @@ class LP_Solver:
                 self.optimisation_mincostlsb(additional_arguments)
 
             # Exit early if one of the optimisations is not solved.
-            if not LpStatus[self.prob.status] == self.model.OPTIMAL_PULP_STATUS:
+            if self.failed_status is not None:
                 return None
 
     
@@ -503,14 +529,20 @@ class LP_Solver:
 
         '''
 
+        # Nothing more is solved once an earlier solve has failed.
+        if self.failed_status is not None:
+            return None
+
         if optimisation_type == Optimisation_type.MAXIMISE:
             self.prob.objective = objective_function
-            self.prob.solve(self.solver)
+            if not self.solve_to_optimality():
+                return None
             # add the constraint
             self.prob += objective_function >= objective_function.varValue
 
         elif optimisation_type == Optimisation_type.MINIMISE:
             self.prob.objective = -1 * objective_function
-            self.prob.solve(self.solver)
+            if not self.solve_to_optimality():
+                return None
             # add the constraint
             self.prob += objective_function <= objective_function.varValue
